@@ -5,6 +5,7 @@
              b<op> L R | u<op> E | f<name> E
 -/
 import Avra.Spec.Eval
+import Avra.Spec.Data
 namespace Avra.Spec
 open Avra
 
@@ -56,6 +57,37 @@ def evalCommand (args : List String) : Option String :=
     match eval symOf e with
     | some v => some s!"V {v}"
     | none => some "FAIL"
+  | _ => some "BADREQ"
+
+end Avra.Spec
+
+namespace Avra.Spec
+open Avra
+
+def dataOpOfToken (t : String) : Option DataOp :=
+  if t == "bad" then some .bad
+  else if t.startsWith "v" then (t.drop 1).toString.toInt?.map .val
+  else if t.startsWith "s" then
+    let rec go : List Char → List Nat
+      | a :: b :: rest =>
+        let hv (c : Char) : Nat := if c.isDigit then c.toNat - 48 else c.toNat - 87
+        (hv a * 16 + hv b) :: go rest
+      | _ => []
+    some (.str (go (t.drop 1).toString.toList))
+  else none
+
+/-- "DATA <c|e|d> <db|dw|dd|dq> <operand tokens>" → "B <hex bytes>" | "FAIL" -/
+def dataCommand (args : List String) : Option String :=
+  match args with
+  | seg :: dt :: toks =>
+    let s : Option SegT := match seg with | "c" => some .code | "e" => some .eeprom | "d" => some .data | _ => none
+    let d : Option DataDefine := match dt with | "db" => some .db | "dw" => some .dw | "dd" => some .dd | "dq" => some .dq | _ => none
+    match s, d, (toks.filter (· ≠ "")).mapM dataOpOfToken with
+    | some s, some d, some ops =>
+      match placedLine s d ops with
+      | some bs => some ("B " ++ String.ofList (bs.flatMap hex2L))
+      | none => some "FAIL"
+    | _, _, _ => some "BADREQ"
   | _ => some "BADREQ"
 
 end Avra.Spec
